@@ -144,14 +144,19 @@ def local_assigned_from(ctx, f, call_pattern: str, index: int = None):
     return sorted(names)[0] if len(names) == 1 else None
 
 
-def side_names(ctx, f):
-    """(changed, synced) as spelled in f: parameters, or `synced` as the local assigned from OTHER_SIDE[changed] / other_side(changed)."""
+def side_names(ctx, f, sa=None):
+    """(changed, synced) as spelled in f.  Order of preference: the complementary parameter pair inferred by the side analysis;
+    a parameter p with a local assigned OTHER_SIDE[p] / other_side(p) / 1 - p; the conventional names."""
+    if sa is not None:
+        prs = sorted(sa.pairs.get(f.qname, ()))
+        if prs:
+            return prs[0]
     params = f.all_param_names()
+    for n in ctx.own_nodes(f):
+        if isinstance(n, ast.Assign) and isinstance(n.targets[0], ast.Name):
+            for p_ in params:
+                if pat.match("OTHER_SIDE[%s]" % p_, n.value) is not None or pat.match("other_side(%s)" % p_, n.value) is not None or pat.match("1 - %s" % p_, n.value) is not None:
+                    return p_, n.targets[0].id
     ch = "changed" if "changed" in params else None
     sy = "synced" if "synced" in params else None
-    if ch and not sy:
-        sy = None
-        for n in ctx.own_nodes(f):
-            if isinstance(n, ast.Assign) and isinstance(n.targets[0], ast.Name) and (pat.match("OTHER_SIDE[%s]" % ch, n.value) is not None or pat.match("other_side(%s)" % ch, n.value) is not None):
-                sy = n.targets[0].id
     return ch, sy
